@@ -239,7 +239,9 @@ class Gen:
         self.profile = profile
         self.steps = []
         self.nctx = self.r.choice([0, 1, 2, 2])
-        self.names = ["h", "g.h", "k"]
+        # "h" twice: same-name traffic is what replaces and unregisters; "h.x": a name that extends another one by a
+        # dotted part (its `.register` starts with "h." and ends with "register")
+        self.names = ["h", "h", "g.h", "k", "h.x"]
         self.n_append = 0
         self.handlers = []   # (step index, name, ctx)
 
@@ -335,7 +337,7 @@ class Gen:
     def build_services(self):
         """commands and generators (C18 / C19): defines, calls (sequential and concurrent), spawns, sends, restarts"""
         r = self.r
-        cnames, gnames = ["c", "d.e"], ["g", "s.t"]
+        cnames, gnames = ["c", "c", "d.e", "c.x"], ["g", "g", "s.t", "g.z"]
         for c in range(self.nctx + 1):
             self.steps.append({"k": "append", "topic": "tick", "ctx": c, "meta": None, "content": None, "ttl": None})
         if r.random() < 0.4:
